@@ -295,7 +295,23 @@ Fixpoint drv_cass (fl : bool) (c : cls) : option str :=
   | CApp n subs _ => go n subs
   | CUnrec n subs _ => go n subs
   | CUdt _ _ _ subs => go (lit "UserType") subs
-  | CVec n _ size => match size with CInt _ => Some (pre n) | _ => None end   (* otherwise the name embeds a class repr: not modelled *)
+  | CVec n _ _ => Some (pre n)
+  end.
+
+(* str(x) of a vector's size parameter: a number, or the repr of a class, "<class 'cassandra.cqltypes.NAME'>" with the
+   class's __name__ (registered name, unrecognised name, UDT name, or the short parameterised name) *)
+Definition pyname (c : cls) : option str :=
+  match c with
+  | CInt _ => None
+  | CReg n => Some n
+  | CUdt _ name _ _ => Some name
+  | CVec n _ _ => Some n
+  | _ => drv_cass false c
+  end.
+Definition size_str (size : cls) : str :=
+  match size with
+  | CInt d => d
+  | _ => lit "<class 'cassandra.cqltypes." ++ match pyname size with Some n => n | None => lit "?" end ++ lit "'>"
   end.
 
 Definition quote1 (s : str) : str := lit "'" ++ s ++ lit "'".
@@ -345,9 +361,9 @@ Fixpoint drv_cql (c : cls) : option str :=
   | CUnrec n subs _ => dflt (quote1 n) subs
   | CUdt _ name _ _ => Some (lit "frozen<" ++ name ++ lit ">")
   | CVec _ sub size =>
-      match drv_cql sub, size with
-      | Some s, CInt d => Some (vector_class_name ++ lit "<" ++ s ++ comma_sp ++ d ++ lit ">")
-      | _, _ => None
+      match drv_cql sub with
+      | Some s => Some (vector_class_name ++ lit "<" ++ s ++ comma_sp ++ size_str size ++ lit ">")
+      | None => None
       end
   end.
 
@@ -467,8 +483,7 @@ Definition udt_apply (subs : list cls) (names : list (option str)) : pres cls :=
   end.
 
 (* VectorType.apply_parameters *)
-Definition vec_name (base : str) (size : cls) : str :=
-  match size with CInt d => base ++ lit "(" ++ d ++ lit ")" | _ => lit "?" end.
+Definition vec_name (base : str) (size : cls) : str := base ++ lit "(" ++ size_str size ++ lit ")".
 
 Definition vector_apply (base : str) (subs : list cls) : pres cls :=
   match subs with
